@@ -213,9 +213,12 @@ impl DynGroup {
         // Apply existing dyn_groups to entries.
         trace!(?dyn_groups.insts);
         for (dg_uuid, dg_filter) in dyn_groups.insts.iter() {
+            // Recycled, tombstoned and conflict entries (also candidates of a modify, a revive
+            // or a replicated change) never match a dynamic group.
             let dg_filter_valid = dg_filter
                 .validate(qs.get_schema())
                 .map_err(OperationError::SchemaViolation)
+                .map(|f| f.into_ignore_hidden())
                 .and_then(|f| f.resolve(&ident_internal, None, qs.get_resolve_filter_cache()))?;
 
             // Did any of our modified entries match our dyn group filter?
@@ -352,9 +355,12 @@ impl DynGroup {
         trace!(?force_cand_updates, ?dyn_groups.insts);
 
         for (dg_uuid, dg_filter) in dyn_groups.insts.iter() {
+            // Recycled, tombstoned and conflict entries (also candidates of a modify, a revive
+            // or a replicated change) never match a dynamic group.
             let dg_filter_valid = dg_filter
                 .validate(qs.get_schema())
                 .map_err(OperationError::SchemaViolation)
+                .map(|f| f.into_ignore_hidden())
                 .and_then(|f| f.resolve(&ident_internal, None, qs.get_resolve_filter_cache()))?;
 
             let matches: Vec<_> = pre_entries
